@@ -212,9 +212,28 @@ def optional_int_attr(P, cx, e):
                 if isinstance(s, ast.AnnAssign) and isinstance(s.target, ast.Name) and s.target.id == e.value.id:
                     ann = (c.f.mod, s.annotation)
         c = c.parent
+    mc = None
     if ann is None:
-        return None
-    mc = P.ann_class(ann[0], ann[1])
+        # a local whose every binding is `Cls(...)` or `Cls.parse(...)` of one class
+        found = set()
+        for n in cx.cfg.nodes:
+            for (nm, v) in cx.cfg.defs_of(n):
+                if nm != e.value.id:
+                    continue
+                c_ = None
+                if isinstance(v, ast.Call):
+                    fn = v.func
+                    if isinstance(fn, ast.Attribute) and fn.attr == 'parse':
+                        fn = fn.value
+                    r = P.resolve(cx.f.mod, fn) if isinstance(fn, (ast.Name, ast.Attribute)) else None
+                    if r and r[0] == 'class':
+                        c_ = (r[1], r[2])
+                found.add(c_)
+        if len(found) != 1 or None in found:
+            return None
+        mc = next(iter(found))
+    else:
+        mc = P.ann_class(ann[0], ann[1])
     if not mc or mc not in P.classes:
         return None
     M = models_of(P)
@@ -254,4 +273,102 @@ def int_truthiness_uses(P, cx):
                 d = optional_int_attr(P, cx, x.operand)
                 if d and n.kind != 'test':
                     out.append((x, d))
+    return out
+
+
+def stale_measures(cx, measure=('get_tl_num_size',)):
+    """A length number must be sized on the value that is finally announced: for every call `measure(E)` at node n and every
+    local name v in E, each return reachable from n whose value depends on v (directly or through locals) must see the same
+    definitions of v as n did. -> list of (call, name, return_node)"""
+    out = []
+    cfg = cx.cfg
+
+    def ids(node, name):
+        return frozenset(d.id for (d, _) in cfg.defs_reaching(node, name))
+
+    def closure(node, expr, depth=0, seen=None):
+        seen = set() if seen is None else seen
+        names = set()
+        for x in ast.walk(expr):
+            if isinstance(x, ast.Name) and isinstance(x.ctx, ast.Load):
+                names.add(x.id)
+                if depth < 4:
+                    for (d, v) in cfg.defs_reaching(node, x.id):
+                        if (d.id, x.id) in seen:
+                            continue
+                        seen.add((d.id, x.id))
+                        if isinstance(v, ast.AST):
+                            names |= closure(d, v, depth + 1, seen)
+                        elif isinstance(v, tuple) and v and v[0] == 'aug':
+                            names |= closure(d, v[1].value, depth + 1, seen)
+        return names
+    rets = returns(cx)
+    for n in cfg.nodes:
+        for c in n.calls():
+            if not (isinstance(c.func, (ast.Name, ast.Attribute)) and (c.func.id if isinstance(c.func, ast.Name) else c.func.attr) in measure) or not c.args:
+                continue
+            vs = {x.id for x in ast.walk(c.args[0]) if isinstance(x, ast.Name) and x.id != 'self'}
+            if not vs:
+                continue
+            reach = cfg.reachable(start=n, follow_exc=False)
+            for r in rets:
+                if r.id == n.id or r.id not in reach or r.ast.value is None:
+                    continue
+                dep = closure(r, r.ast.value)
+                for v in sorted(vs & dep):
+                    # definitions made *at* n (e.g. `x = f(measure(x))`) count as seen by n
+                    if ids(r, v) - {n.id} != ids(n, v) - {n.id} and any(d.id in reach for (d, _) in cfg.defs_reaching(r, v) if d.id != n.id):
+                        out.append((c, v, r))
+    return out
+
+
+SUBTYPE = {'list': {'Iterable', 'Sequence', 'Collection', 'list'}, 'tuple': {'Iterable', 'Sequence', 'Collection', 'tuple'},
+           'str': {'Iterable', 'Sequence', 'str'}, 'dict': {'Iterable', 'Mapping', 'dict'}}
+
+
+def _isinstance_of(test, var):
+    """set of type names T for a test node `isinstance(var, T)` / `isinstance(var, (T1, T2))`"""
+    if isinstance(test, ast.Call) and isinstance(test.func, ast.Name) and test.func.id == 'isinstance' and len(test.args) == 2 \
+            and isinstance(test.args[0], ast.Name) and test.args[0].id == var:
+        t = test.args[1]
+        elts = t.elts if isinstance(t, ast.Tuple) else [t]
+        return {ast.unparse(e).rsplit('.', 1)[-1] for e in elts}
+    return None
+
+
+def caller_object_reaches(cx, var, use):
+    """definitions of local `var` that make it the *caller's* object (a parameter, or a plain alias of one) and feasibly reach CFG
+    node `use` without an intervening re-binding. A path that first fails `isinstance(var, A)` and later passes `isinstance(var, B)`
+    with B a subtype of A (list/tuple/str under Iterable ...) is infeasible and ignored."""
+    cfg = cx.cfg
+    params = {a.arg for a in cx.f.node.args.args + cx.f.node.args.kwonlyargs}
+    out = []
+    redefs = [n for n in cfg.nodes if any(nm == var for (nm, _) in cfg.defs_of(n))]
+    for (d, v) in cfg.defs_reaching(use, var):
+        alias = (isinstance(v, tuple) and v and v[0] == 'param') or (isinstance(v, ast.Name) and v.id in params)
+        if not alias:
+            continue
+        removed = {n.id for n in redefs if n.id != d.id}
+        reach = cfg.reachable(start=d, removed_nodes=removed, follow_exc=False)
+        if use.id not in reach:
+            continue
+        feasible = True
+        tests = [(t, _isinstance_of(t.ast, var)) for t in cfg.nodes if t.kind == 'test' and t.id in reach]
+        tests = [(t, ts) for (t, ts) in tests if ts]
+        for (t1, a) in tests:
+            # every path goes through (t1, False)?
+            if use.id in cfg.reachable(start=d, removed_nodes=removed, removed_edges={(t1.id, False)}, follow_exc=False):
+                continue
+            for (t2, b) in tests:
+                if t2 is t1 or len(b) != 1:
+                    continue
+                sup = SUBTYPE.get(next(iter(b)), set())
+                if not (sup & a):
+                    continue
+                # ... and then through (t2, True), t2 after t1
+                if use.id not in cfg.reachable(start=d, removed_nodes=removed, removed_edges={(t2.id, True)}, follow_exc=False) \
+                        and t2.id in reach_from_succ(cfg, t1, False, removed_nodes=removed, follow_exc=False):
+                    feasible = False
+        if feasible:
+            out.append(d)
     return out
